@@ -8,6 +8,7 @@ import (
 	"sort"
 	"strings"
 	"testing"
+	"time"
 
 	"github.com/coder/websocket"
 	"github.com/high-moctane/mocrelay"
@@ -308,6 +309,8 @@ func TestC12Session(t *testing.T) {
 			opt.RecvRateLimitBurst = mocrelay.NewDefaultRelayOption().RecvRateLimitBurst
 			opt.RecvRateLimitRate = 1e6
 		}
+		// keep-alive pings every minute (default), every few milliseconds, or never
+		opt.PingDuration = rapid.SampledFrom([]time.Duration{time.Minute, time.Minute, 3 * time.Millisecond, 0}).Draw(t, "ping")
 		rig := newWSRig(opt, h)
 		defer rig.close()
 		var genuine []*mocrelay.Event
@@ -319,6 +322,7 @@ func TestC12Session(t *testing.T) {
 			if err != nil {
 				t.Fatalf("dial: %v", err)
 			}
+			startReader(c)
 			n := rapid.IntRange(1, 25).Draw(t, fmt.Sprintf("c%d.nframes", ci))
 			var frames []frame
 			for i := 0; i < n; i++ {
@@ -436,7 +440,7 @@ func TestC12Session(t *testing.T) {
 				m := gen.ServerMsgValue(t, fmt.Sprintf("c%d.out%d.", ci, i))
 				if rapid.IntRange(0, 7).Draw(t, fmt.Sprintf("c%d.out%d.big?", ci, i)) == 0 {
 					// also beyond what the relay itself accepts: the size limit is on what it reads
-				m = mocrelay.NewServerNoticeMsg(strings.Repeat("n", rapid.IntRange(33000, 150000).Draw(t, fmt.Sprintf("c%d.out%d.biglen", ci, i))))
+					m = mocrelay.NewServerNoticeMsg(strings.Repeat("n", rapid.IntRange(33000, 150000).Draw(t, fmt.Sprintf("c%d.out%d.biglen", ci, i))))
 				}
 				if n, is := m.(*mocrelay.ServerNoticeMsg); is && strings.HasPrefix(n.Message, sentinelPrefix) {
 					n.Message = "x"
@@ -471,4 +475,43 @@ func TestC12Session(t *testing.T) {
 		}
 		col.Case(nontrivial, hx.JSON(allFrames), func() any { return allFrames })
 	})
+}
+
+// TestC12RegressPingDeadlock is the plain replay of a defect found by TestC12Session
+// (fixed in /repo 732255f): with keep-alive pings enabled the write loop waited for a
+// pong while the read loop waited for the write loop to take a rejection; the session
+// stalled for SendTimeout and was then closed.
+func TestC12RegressPingDeadlock(t *testing.T) {
+	col := ev.For("C12").SetRule(c12Rule)
+	opt := openOptions()
+	opt.PingDuration = 2 * time.Millisecond
+	opt.SendTimeout = 2 * time.Second
+	h := newRecHandler()
+	rig := newWSRig(opt, h)
+	defer rig.close()
+	c, err := dial(rig.url)
+	if err != nil {
+		t.Fatalf("dial: %v", err)
+	}
+	defer c.CloseNow()
+	startReader(c)
+	const n = 1500
+	start := time.Now()
+	for i := 0; i < n; i++ {
+		if err := c.Write(context.Background(), websocket.MessageText, []byte("not json")); err != nil {
+			hx.Fail(t, ev.Failure{Property: "C12", Signature: "connection-lost", Clause: "every invalid frame is answered with one rejection and the connection stays usable (keep-alive pings every 2 ms)",
+				Case: map[string]any{"frames": n, "ping": "2ms"}, Observed: fmt.Sprintf("write %d failed after %v: %v", i, time.Since(start), err)})
+		}
+		time.Sleep(50 * time.Microsecond)
+	}
+	if err := c.Write(context.Background(), websocket.MessageText, []byte(`["CLOSE","`+sentinelPrefix+`ping"]`)); err != nil {
+		hx.Fail(t, ev.Failure{Property: "C12", Signature: "connection-lost", Clause: "the connection stays usable", Case: map[string]any{"frames": n, "ping": "2ms"}, Observed: err.Error()})
+	}
+	replies, err := readUntilNotice(c, sentinelPrefix+"ping")
+	if err != nil || len(replies) != n {
+		hx.Fail(t, ev.Failure{Property: "C12", Signature: "connection-lost", Clause: "every invalid frame is answered with exactly one rejection and the connection stays usable (keep-alive pings every 2 ms)",
+			Case: map[string]any{"frames": n, "ping": "2ms"}, Observed: fmt.Sprintf("%d rejections, err=%v", len(replies), err)})
+	}
+	col.Label("regression:ping-deadlock")
+	col.Case(true, "regress-ping-deadlock", nil)
 }
